@@ -6,7 +6,8 @@
 //   ensures : entries == old(entries) with exactly those positions removed, order kept
 // A companion cover harness shows that a NON-ascending list violates the postcondition, i.e. the requires is not idle.
 // ======================================================================================================================
-#[cfg(kani)]
+#[cfg(any(kani, verif_replay))]
+#[allow(unexpected_cfgs)]
 mod verif_kani {
     use super::delete_entries;
 
@@ -32,19 +33,23 @@ mod verif_kani {
         }
     }
 
-    #[kani::proof] #[kani::unwind(3)] fn delete_entries_n0() { check::<0>(); }
-    #[kani::proof] #[kani::unwind(3)] fn delete_entries_n1() { check::<1>(); }
-    #[kani::proof] #[kani::unwind(4)] fn delete_entries_n2() { check::<2>(); }
-    #[kani::proof] #[kani::unwind(5)] fn delete_entries_n3() { check::<3>(); }
-    #[kani::proof] #[kani::unwind(6)] fn delete_entries_n4() { check::<4>(); }
-    #[kani::proof] #[kani::unwind(7)] fn delete_entries_n5() { check::<5>(); }
+    #[cfg_attr(kani, kani::proof)] #[cfg_attr(kani, kani::unwind(3))] fn delete_entries_n0() { check::<0>(); }
+    #[cfg_attr(kani, kani::proof)] #[cfg_attr(kani, kani::unwind(3))] fn delete_entries_n1() { check::<1>(); }
+    #[cfg_attr(kani, kani::proof)] #[cfg_attr(kani, kani::unwind(4))] fn delete_entries_n2() { check::<2>(); }
+    #[cfg_attr(kani, kani::proof)] #[cfg_attr(kani, kani::unwind(5))] fn delete_entries_n3() { check::<3>(); }
+    #[cfg_attr(kani, kani::proof)] #[cfg_attr(kani, kani::unwind(6))] fn delete_entries_n4() { check::<4>(); }
+    #[cfg_attr(kani, kani::proof)] #[cfg_attr(kani, kani::unwind(7))] fn delete_entries_n5() { check::<5>(); }
 
     /// the precondition matters: with the list [1, 0] only position 1 is removed
-    #[kani::proof] #[kani::unwind(5)]
+    #[cfg_attr(kani, kani::proof)] #[cfg_attr(kani, kani::unwind(5))]
     fn delete_entries_requires_is_needed() {
         let mut entries: Vec<u8> = vec![10, 11, 12];
         delete_entries(vec![1, 0], &mut entries);
         kani::cover!(entries.len() == 2 && entries[0] == 10, "descending list leaves position 0 in place");
         assert!(entries.len() == 2);
     }
+
+    #[cfg(verif_replay)]
+    const HARNESSES: &[(&str, fn())] = &[("delete_entries_n0", delete_entries_n0), ("delete_entries_n1", delete_entries_n1), ("delete_entries_n2", delete_entries_n2), ("delete_entries_n3", delete_entries_n3), ("delete_entries_n4", delete_entries_n4), ("delete_entries_n5", delete_entries_n5), ("delete_entries_requires_is_needed", delete_entries_requires_is_needed)];
+    //@@SHIM@@
 }
